@@ -17,6 +17,11 @@ mod eval;
 mod pairs;
 mod pgen;
 mod sx;
+mod vconv;
+mod virev;
+mod vrun;
+mod vtxev;
+mod vval;
 
 use crate::compile_util::*;
 use crate::util::*;
@@ -404,6 +409,11 @@ fn run_program(src: &str, only: Option<(&str, &[Vec<V>])>, nvec: usize, rng: &mu
 
 pub fn run(args: &Args, out: &mut Out) {
     let mut hist = Hist::default();
+    if args.extra.first().map(|s| s.as_str()) == Some("vdump") {
+        // debugging aid: harness c01 vdump FILE
+        vrun::vdump(&std::fs::read_to_string(&args.extra[1]).unwrap_or_default());
+        return;
+    }
     if args.extra.first().map(|s| s.as_str()) == Some("dump") {
         // debugging aid: harness c01 dump FILE
         let src = std::fs::read_to_string(&args.extra[1]).unwrap_or_default();
@@ -433,6 +443,17 @@ pub fn run(args: &Args, out: &mut Out) {
     if let Some(lines) = args.request_lines() {
         for line in lines {
             let f: Vec<&str> = line.split('\t').collect();
+            if f.len() >= 4 && f[0] == "C01.vfn" {
+                let src = unescape(f[1]);
+                let vecs = vrun::parse_vvectors(f[3]).unwrap_or_else(|| vec![vec![]]);
+                let mut rng = Rng::new(1);
+                if f[2] == "-" {
+                    vrun::vrun_program(&src, None, 3, &mut rng, out, &mut hist);
+                } else {
+                    vrun::vrun_program(&src, Some((f[2], &vecs)), vecs.len(), &mut rng, out, &mut hist);
+                }
+                continue;
+            }
             if f.len() < 4 || f[0] != "C01.fn" {
                 continue;
             }
